@@ -97,7 +97,8 @@ func (r *MMapReader) SeekNext(offset uint64) (uint64, []byte, error) {
 				}
 			}
 			if ix-i < len(MagicNumberSeparatorLongBytes) {
-				i = ix + 1
+				// only position i is ruled out: the byte that broke the match can itself start the real marker
+				i = i + 1
 				continue
 			}
 
